@@ -8,6 +8,7 @@ import Djc.Proofs.Render
 import Djc.Proofs.Plain
 import Djc.Proofs.Calm
 import Djc.Proofs.Leaf
+import Djc.Proofs.Tree
 namespace Djc.Props.C06
 open Djc.Tpl Djc.Render Djc.Proofs.Render
 
@@ -142,6 +143,39 @@ theorem C06_full_partial_leaf_component_leaves_nothing (env : Env) (i : Nat) (na
   rw [Djc.Proofs.Leaf.leaf_component env i name kwargs only dyn ctx ctx' w d toks st hctx' hr hd hdyn hp hsrc hsteps hgcd hext
     hpar hprov hf1 hf2 hf3 hf4 hc hok]
   exact ⟨rfl, rfl, rfl, rfl, rfl, rfl, rfl, rfl⟩
+
+/-- **Trees of components leave nothing behind — any depth, any width.**  `{% component name … %}{% endcomponent %}` where
+no component encloses the tag, over *any* library whose templates are built from text, `{{ }}`, if / for / with, elements
+and component tags with empty bodies (`GoodLib`: components nest through their templates, repeat in loops, may recurse)
+with data from the call.  `ComponentNode.render` → `_render_impl` → the `while` loop of `component_post_render` over
+however many queued renderers the tree unfolds: when the render returns, `component_context_cache`,
+`component_renderer_cache` and `child_component_attrs` hold exactly the entries they held before (no entry of this
+render, every earlier entry untouched), and the provide registries and the fill-capture list are unchanged.  For every
+fuel, context without slot references and world in which ids not yet generated are unused (`WInv`); with or without
+fault injection (a run in which a callback raised does not return).  Proved with an invariant over the whole queue
+(`Djc.Proofs.Tree.LInv`), by mutual induction over the seven functions of the pipeline. -/
+theorem C06_full_partial_component_trees_leave_nothing (env : Env) (hlib : Djc.Proofs.Tree.GoodLib env) (fuel : Nat)
+    (name : Str) (kwargs : List (Str × Expr)) (only dyn : Bool) (ctx : Ctx) (w w' : World) (toks : List Tok)
+    (hd : isDynName name = false) (hc : Djc.Proofs.Plain.ctxFree ctx = true) (hw : Djc.Proofs.Tree.WInv w)
+    (hext : isExtracting ctx = false)
+    (hpar : Djc.Proofs.Tree.parentOf (if only || env.isolated then isolatedCopy ctx else ctx) = none)
+    (h : (renderCompTag env fuel name kwargs only dyn [] ctx).run.run w = (.ok toks, w')) :
+    (∀ k, alGet k w'.ctxCache = alGet k w.ctxCache) ∧ (∀ k, alGet k w'.rendererCache = alGet k w.rendererCache) ∧
+      (∀ k, alGet k w'.childAttrs = alGet k w.childAttrs) ∧ w'.provideCache = w.provideCache ∧
+      w'.provideRefs = w.provideRefs ∧ w'.allRefIds = w.allRefIds ∧ w'.cap = w.cap := by
+  obtain ⟨hb, _⟩ := Djc.Proofs.Tree.tree_root_tag env hlib fuel name kwargs only dyn ctx w w' toks hd hc hw hext hpar h
+  exact ⟨fun k => hb.cc k (by simp), fun k => hb.rc k (by simp), hb.ca, hb.prov.1, hb.prov.2.1, hb.prov.2.2.1, hb.prov.2.2.2⟩
+
+/-- the hypotheses are met, and the run returns: a three-level library (page > list > leaf in a loop, and a leaf beside
+it), both `context_behavior` settings, the empty world; the run (five instances) is evaluated by the kernel and leaves
+every registry empty -/
+example : ∀ isolated, Djc.Proofs.Tree.GoodLib (Djc.Proofs.Tree.exEnv isolated) := Djc.Proofs.Tree.exEnv_good
+example : Djc.Proofs.Tree.WInv ({} : World) ∧ Djc.Proofs.Plain.ctxFree Djc.Proofs.Tree.exCtx = true ∧
+    isExtracting Djc.Proofs.Tree.exCtx = false ∧ Djc.Proofs.Tree.parentOf Djc.Proofs.Tree.exCtx = none ∧
+    Djc.Proofs.Tree.parentOf (isolatedCopy Djc.Proofs.Tree.exCtx) = none ∧
+    Djc.Proofs.Tree.exSummary false = true ∧ Djc.Proofs.Tree.exSummary true = true :=
+  ⟨Djc.Proofs.Tree.empty_world_inv, by decide +kernel, by decide +kernel, by decide +kernel, by decide +kernel,
+    by decide +kernel, by decide +kernel⟩
 
 /-- The property at full strength for the model of the code: whatever callback raises, every
 registry of the world is as before the render.  OPEN; false on the unchanged tree. -/
